@@ -82,6 +82,10 @@ def run(ctx):
             ops.append(ops[0][0] + str((x >> B << B) | rng.getrandbits(B)))
         cases.append(c[:-1] + [" ".join(ops)])
     m, i = ctx.correspond(cases, project=project, label="preserve")
+    # the same requests executed ENTIRELY by the code generated from the source on this run (constructor with its seeding loops and
+    # ipaddress parsing, MD5 flip bit, anonymize/deanonymize) -- validates translator + PyLib on what the refinement theorems speak about
+    gcases = [["gip4"] + c[1:] for c in cases if c[0] == "ip4" and c[2].startswith("md5:")][: 12 if q else 200]
+    ctx.correspond(gcases, project=lambda c, o: project(["ip4"] + c[1:], o), label="generated-code")
     nt = sum(check_case(ctx, c, o) for c, o in zip(cases, i))
     # wiring: the host-bit values given to FileAnonymizer / main reach the right family (text level)
     import ipaddress
